@@ -401,16 +401,20 @@ func (m *Machine) Run(pc int, maxSteps int, stop func(pc int) bool) (int, error)
 				x.Int -= a[0].Imm
 			}
 			m.Regs[a[1].Reg] = x
-			m.flagsOK = false
-		case "DECQ":
+			// flags of the (small, signed) counter result: ZF, and SF≠OF as "result < 0"
+			m.zf, m.lt, m.flagsOK = x.Int == 0, x.Int < 0, true
+		case "DECQ", "INCQ":
 			x := m.Regs[a[0].Reg]
 			if len(a) != 1 || x.Kind != "int" {
-				return pc, fmt.Errorf("line %d: DECQ on a non-counter", ins.Line)
+				return pc, fmt.Errorf("line %d: %s on a non-counter", ins.Line, ins.Op)
 			}
-			x.Int--
+			if ins.Op == "DECQ" {
+				x.Int--
+			} else {
+				x.Int++
+			}
 			m.Regs[a[0].Reg] = x
-			m.zf, m.flagsOK = x.Int == 0, true
-			m.lt = false
+			m.zf, m.lt, m.flagsOK = x.Int == 0, x.Int < 0, true
 		case "CMPQ":
 			if err := need(2); err != nil {
 				return pc, err
@@ -420,7 +424,7 @@ func (m *Machine) Run(pc int, maxSteps int, stop func(pc int) bool) (int, error)
 				return pc, fmt.Errorf("line %d: CMPQ is modelled as counter vs immediate only", ins.Line)
 			}
 			m.zf, m.lt, m.flagsOK = x.Int == a[1].Imm, x.Int < a[1].Imm, true
-		case "JL", "JNZ":
+		case "JL", "JLT", "JLE", "JG", "JGT", "JGE", "JE", "JEQ", "JZ", "JNE", "JNZ":
 			if len(a) != 1 || a[0].Kind != "label" {
 				return pc, fmt.Errorf("line %d: jump without label", ins.Line)
 			}
@@ -431,7 +435,21 @@ func (m *Machine) Run(pc int, maxSteps int, stop func(pc int) bool) (int, error)
 			if !ok {
 				return pc, fmt.Errorf("line %d: unknown label %s", ins.Line, a[0].Name)
 			}
-			taken := ins.Op == "JL" && m.lt || ins.Op == "JNZ" && !m.zf
+			var taken bool
+			switch ins.Op {
+			case "JL", "JLT":
+				taken = m.lt
+			case "JLE":
+				taken = m.lt || m.zf
+			case "JG", "JGT":
+				taken = !m.lt && !m.zf
+			case "JGE":
+				taken = !m.lt
+			case "JE", "JEQ", "JZ":
+				taken = m.zf
+			default: // JNE, JNZ
+				taken = !m.zf
+			}
 			if taken {
 				pc = tgt
 				continue
